@@ -808,6 +808,13 @@ fn build_universe_enc(rng: &mut Rng, enc: TextEncoding, n_replicas: usize, steps
     (all.get_changes(&[]), head_sets)
 }
 
+/// cases share no definitions: pack them into common shards (every coqc start loads the model once)
+fn push_cases(cw: &mut CaseWriter, cases: Vec<(String, serde_json::Value)>) {
+    for (t, d) in cases {
+        cw.push(t, d);
+    }
+}
+
 fn hexes(h: &[ChangeHash]) -> Vec<String> {
     h.iter().map(|x| hex(&x.0)).collect()
 }
@@ -862,7 +869,7 @@ impl<'a> Judge<'a> {
 // ------------------------------------------------------------------ C08
 fn run_c08(rng: &mut Rng, thorough: bool, rep: &mut Report, cw: &mut CaseWriter) {
     let n_univ = if thorough { 900 } else { 150 };
-    let n_model = if thorough { 160 } else { 36 };
+    let n_model = if thorough { 90 } else { 14 };
     for ui in 0..n_univ {
         let enc = [TextEncoding::UnicodeCodePoint, TextEncoding::Utf8CodeUnit, TextEncoding::Utf16CodeUnit][ui % 3];
         let mut log: Vec<String> = vec![];
@@ -1049,7 +1056,7 @@ fn run_c08(rng: &mut Rng, thorough: bool, rep: &mut Report, cw: &mut CaseWriter)
         }
         let cases = std::mem::take(&mut jd.cases);
         if model {
-            cw.push_group(&[], cases);
+            push_cases(cw, cases);
         }
     }
 }
@@ -1073,7 +1080,7 @@ impl Mat {
     fn flush(&mut self, cw: &mut CaseWriter, model: bool, descr: &serde_json::Value) {
         if model && !self.chain.is_empty() {
             let steps: Vec<String> = self.chain.iter().map(|(ps, v)| format!("({},{})", coq_ps(ps), coq_view(v))).collect();
-            cw.push_group(&[], vec![(format!("chk_chain {} {} {}", enc_name(self.enc), coq_view(&self.v0), coq_list(&steps)), descr.clone())]);
+            push_cases(cw, vec![(format!("chk_chain {} {} {}", enc_name(self.enc), coq_view(&self.v0), coq_list(&steps)), descr.clone())]);
         }
         self.chain.clear();
         self.v0 = self.v.clone();
@@ -1138,7 +1145,7 @@ impl Mat {
             // its own in the model too, and continue from the document's state
             self.flush(cw, model, &json!({"kind": "chain", "props": ["C09"], "log": log}));
             if model {
-                cw.push_group(&[], vec![(format!("negb (chk_chain {} {} {})", enc_name(self.enc), coq_view(&self.v0), coq_list(&[format!("({},{})", coq_ps(&ps), coq_view(want))])),
+                push_cases(cw, vec![(format!("negb (chk_chain {} {} {})", enc_name(self.enc), coq_view(&self.v0), coq_list(&[format!("({},{})", coq_ps(&ps), coq_view(want))])),
                     json!({"kind": format!("chain-step-rejected-{}", what), "props": ["C09"], "direct_ok": false, "log": log}))]);
             }
             self.v = want.clone();
@@ -1494,7 +1501,7 @@ fn scripted_diff(rep: &mut Report, cw: &mut CaseWriter, name: &str, doc: &Autome
             jd.judge(&["C08"], "diff", enc, &v1, &ps, &v2, false, json!({"scripted": name}));
             jd.rep.case(Some(fnv(name.as_bytes())));
             let cases = std::mem::take(&mut jd.cases);
-            cw.push_group(&[], cases);
+            push_cases(cw, cases);
         }
         Err(p) => rep.fail(&["C08", "C37"], &format!("panic|diff|{}", p.signature()), &format!("scripted scenario {} panicked: {}", name, p.message), json!({"scripted": name})),
     }
@@ -1603,13 +1610,13 @@ fn mat_steps(_m: &mut Mat, steps: Vec<(&'static str, Vec<Patch>)>, views: Vec<(V
 
 pub fn run(rng: &mut Rng, tier: &str, out: &str) -> Report {
     let mut rep = Report::new("patch");
-    let mut cw = CaseWriter::new(out, "patch", HEADER, 1);
+    let mut cw = CaseWriter::new(out, "patch", HEADER, if tier == "thorough" { 60 } else { 24 });
     let thorough = tier == "thorough";
     scripted(&mut rep, &mut cw);
     let mut r8 = rng.fork();
     run_c08(&mut r8, thorough, &mut rep, &mut cw);
     let n_chains = if thorough { 1200 } else { 200 };
-    let n_model = if thorough { 200 } else { 40 };
+    let n_model = if thorough { 140 } else { 26 };
     let mut r9 = rng.fork();
     for ci in 0..n_chains {
         let model = ci < n_model;
